@@ -22,7 +22,7 @@ RULE = (
     '+-1e-4 A band for MDAnalysis\' float32 search.  Non-trivial = at least one atom-frame assigned to a site through '
     'a non-zero lattice image; distinct = SHA-1 of (cell, sites, radii, positions).'
 )
-RULE += ' Added in rounds 6-10: repeated calls on the same objects with other settings; radius dicts with equal values or not naming every label; structures with ONE site per cell (automatic radius = K9); cells with one short edge and radii beyond half of it; positions listed twice in automatic-radius cases.'
+RULE += ' Added in rounds 6-10: repeated calls on the same objects with other settings; radius dicts with equal values or not naming every label; structures with ONE site per cell (automatic radius = K9); cells with one short edge and radii beyond half of it; positions listed twice in automatic-radius cases (40 % of the vibration-limited cases).'
 ASSUMPTIONS = [
     'distances within 1e-4 A of the radius accept either answer (MDAnalysis searches in float32)',
     'with overlapping user-supplied spheres any covering site is accepted (the statement does not order them)',
@@ -197,7 +197,7 @@ def run_auto_small(unit, rng, ctx):
     vib = float(TrajectoryMetrics(traj.filter('Li')).vibration_amplitude())
     r0 = 2 * vib
     site_frac = np.mod(anchors + (gen.random_unit_vectors(rng, nanch) * (r0 * rng.uniform(0.6, 1.3, size=(nanch, 1)))) @ inv, 1)
-    if rng.uniform() < 0.15:
+    if rng.uniform() < 0.4:
         # a site listed twice (the same position, or the same position one lattice vector away: a face site given
         # at x = 0 and at x = 1): the spheres coincide, no non-overlapping radius exists
         dup = site_frac[int(rng.integers(nanch))].copy()
